@@ -99,8 +99,8 @@ DecLong(b, i) ==
 Small(x) == IF Len(x.d) <= 2 THEN B!ToInt(x) ELSE (IF x.s = 1 THEN 0 - 100000000 ELSE 100000000)
 
 (* --------------------------------------------------------------- encoding *)
-RECURSIVE Reverse(_)
-Reverse(s) == IF s = <<>> THEN <<>> ELSE Append(Reverse(Tail(s)), Head(s))
+RECURSIVE Rev(_)
+Rev(s) == IF s = <<>> THEN <<>> ELSE Append(Rev(Tail(s)), Head(s))
 
 IsOptional(s) ==
   s.k = "union" /\ Len(s.kids) = 2 /\ ((s.kids[1].k = "null") # (s.kids[2].k = "null"))
@@ -118,8 +118,8 @@ Enc(v, s) ==
     [] s.k = "boolean" -> IF v.k = "bool" /\ v.i \in {0, 1} THEN OK(<<v.i>>) ELSE BAD
     [] s.k = "int"     -> IF v.k = "int" /\ B!IsWire(v.n) /\ IsInt32(B!FromWire(v.n)) THEN OK(EncLong(B!FromWire(v.n))) ELSE BAD
     [] s.k = "long"    -> IF v.k = "int" /\ B!IsWire(v.n) /\ IsInt64(B!FromWire(v.n)) THEN OK(EncLong(B!FromWire(v.n))) ELSE BAD
-    [] s.k = "float"   -> IF v.k = "float" /\ Len(v.b) = 4 /\ IsBytes(v.b) THEN OK(Reverse(v.b)) ELSE BAD
-    [] s.k = "double"  -> IF v.k = "double" /\ Len(v.b) = 8 /\ IsBytes(v.b) THEN OK(Reverse(v.b)) ELSE BAD
+    [] s.k = "float"   -> IF v.k = "float" /\ Len(v.b) = 4 /\ IsBytes(v.b) THEN OK(Rev(v.b)) ELSE BAD
+    [] s.k = "double"  -> IF v.k = "double" /\ Len(v.b) = 8 /\ IsBytes(v.b) THEN OK(Rev(v.b)) ELSE BAD
     [] s.k \in {"bytes", "string"} -> IF v.k = "bytes" /\ IsBytes(v.b) THEN OK(EncNat(Len(v.b)) \o v.b) ELSE BAD
     [] s.k = "fixed"   -> IF v.k = "bytes" /\ IsBytes(v.b) /\ Len(v.b) = s.size THEN OK(v.b) ELSE BAD
     [] s.k = "enum"    -> IF v.k = "enum" /\ v.i \in 0..(s.size - 1) THEN OK(EncNat(v.i)) ELSE BAD
@@ -192,8 +192,8 @@ Dec(b, i, s) ==
     [] s.k \in {"int", "long"} ->
          LET r == DecLong(b, i) IN
          IF r.ok /\ (s.k = "long" \/ IsInt32(r.x)) THEN DOk(VInt(B!ToWire(r.x)), r.next) ELSE DFail(i)
-    [] s.k = "float"   -> IF i + 3 <= Len(b) THEN DOk(VFloat(Reverse(SubSeq(b, i, i + 3))), i + 4) ELSE DFail(i)
-    [] s.k = "double"  -> IF i + 7 <= Len(b) THEN DOk(VDouble(Reverse(SubSeq(b, i, i + 7))), i + 8) ELSE DFail(i)
+    [] s.k = "float"   -> IF i + 3 <= Len(b) THEN DOk(VFloat(Rev(SubSeq(b, i, i + 3))), i + 4) ELSE DFail(i)
+    [] s.k = "double"  -> IF i + 7 <= Len(b) THEN DOk(VDouble(Rev(SubSeq(b, i, i + 7))), i + 8) ELSE DFail(i)
     [] s.k \in {"bytes", "string"} ->
          LET r == DecLong(b, i) IN
          IF ~r.ok THEN DFail(i)
